@@ -956,10 +956,15 @@ def check_after_optimize(ctx, case, si, o, pb, variables, log, x0, xs, fstar, va
     if f5_run:
         ctx.count('run explored points outside the real limits of an unscaled bounded variable (F5)')
     # ---- _fun is a function of the point (fun_state_determined, numerically): equal points, equal values
+    # (conditioning: cardinal-point operands are differences of vertex positions; a solve on a nearly afocal lens
+    # puts the image 1e7 mm away, where one unit in the last place of z is 2e-9 mm)
+    zmax = max([abs(float(v)) for v in after.get('z', []) if math.isfinite(float(v))] + [1.0])
+    wmax = max([abs(float(od.get('weight', 1.0))) for od in pd['operands']] + [1.0])
+    ctol = 1e-12 + 1e-14 * zmax * wmax ** 2
     seen = {}
     for x, f in log:
         key = tuple(fhex(v) for v in x)
-        if key in seen and not close(seen[key], f, 1e-9, 1e-12):
+        if key in seen and not close(seen[key], f, 1e-9, ctol):
             fk = 'nan-poisoned-lens' if pois else None
             ctx.fail('_fun returns the same value whenever it is called at the same point', case,
                      {'step': si, 'point': [float(v) for v in x], 'values': [seen[key], f]}, None, finding_key=fk)
@@ -983,7 +988,7 @@ def check_after_optimize(ctx, case, si, o, pb, variables, log, x0, xs, fstar, va
                  {'step': si, 'result.x': xs, 'values_logged_at_result.x': hits}, fstar,
                  finding_key='scipy-pair-not-an-evaluation')
     # ---- sum_squared() == result.fun
-    if not close(guard(ss), fstar, 1e-9, 1e-12):
+    if not close(guard(ss), fstar, 1e-9, ctol):
         fk = None
         if not at_solution and at_last and (not log or close(guard(ss), log[-1][1], 1e-9, 1e-12)):
             fk = 'lens-left-at-last-evaluated-point'
